@@ -241,7 +241,9 @@ class RDFWriter(object):
             curr_val = getattr(doc, k)
 
             # Ignore an "id" entry, it has already been used to create the node itself.
-            if k == "id" or not curr_val:
+            # A number is a set attribute also when it is 0 (version).
+            if k == "id" or \
+                    (not curr_val and not isinstance(curr_val, (bool, int, float))):
                 continue
 
             if k == "repository":
